@@ -144,3 +144,22 @@ Example C01_clean_nonvacuous :
   exists ls w', rrun ex_tp ex_w0 ls w' /\ ticked 1 ls /\ w_flight w' = [] /\
   exists st, rnode_at w' 3 = Some st /\ aget 1 (ns_known st) = Some (ex_tp 1).
 Proof. exact ex_route_converged. Qed.
+
+(* Link bookkeeping (Model/RouteLink.v): the hypothesis "a node's own row is its true adjacency" of part
+   B, over every history of establish / removeConnection / end-of-Close events - a session's teardown
+   may end long after its removeConnection, with a new session of the same peer established in between. *)
+From Receptor Require Import Model.RouteLink Proofs.RouteLink.
+
+Theorem C01_own_row_is_connections : forall h, l_own (lrun false l0 h) = l_conns (lrun false l0 h).
+Proof. exact own_row_is_connections_from_start. Qed.
+Print Assumptions C01_own_row_is_connections.
+
+(* a deferred clean-up that forgets the peer's costs once more after Close loses the NEW session's row *)
+Theorem C01_late_forget_refuted :
+  let s := lrun true l0 slow_close_history in l_conns s = [(1, 2)] /\ l_own s = [].
+Proof. exact late_forget_refuted. Qed.
+Print Assumptions C01_late_forget_refuted.
+
+Example C01_slow_close_nonvacuous :
+  let s := lrun false l0 slow_close_history in l_conns s = [(1, 2)] /\ l_own s = [(1, 2)].
+Proof. exact slow_close_history_faithful. Qed.
